@@ -180,8 +180,8 @@ def uri_class(v):
     """first reason why helper.uri(v) does not read back as v; None = safe"""
     if uri_quoted(v):
         return _scan(v, False)
-    for c in v:
-        if not is_url_char(c):
+    for k, c in enumerate(v):
+        if not is_url_char(c) and not (k > 0 and v[k - 1] == '\\'):
             return 'ctrl'
     # unquoted: only decodable hex escapes are changed on the way back
     i, n = 0, len(v)
